@@ -55,3 +55,126 @@ def normalize_calls(P, R):
                 call.args.append(call.keywords.pop(0).value)
                 moved += 1
     return moved
+
+
+def normalize_membership(P):
+    """`X in (a, b)` with a display of at most four non-constant members (`BLANK in (left, right)`) is the
+    disjunction `X == a or X == b`; `not in` the conjunction of `!=`.  (Membership in a display of constants is
+    left as it is: the engine keeps it as a value-set fact.)"""
+    import copy
+    n_sites = 0
+
+    class T(ast.NodeTransformer):
+        def visit_Compare(self, n):
+            self.generic_visit(n)
+            nonlocal n_sites
+            if len(n.ops) == 1 and isinstance(n.ops[0], (ast.In, ast.NotIn)) and isinstance(n.comparators[0], (ast.Tuple, ast.List, ast.Set)):
+                elts = n.comparators[0].elts
+                if 1 <= len(elts) <= 4 and isinstance(n.left, (ast.Name, ast.Constant, ast.Attribute)) and any(isinstance(e, ast.Name) and not e.id.isupper() for e in elts) \
+                        and all(isinstance(e, (ast.Name, ast.Constant, ast.Attribute)) for e in elts):
+                    neg = isinstance(n.ops[0], ast.NotIn)
+                    parts = [ast.Compare(left=copy.deepcopy(e), ops=[ast.NotEq() if neg else ast.Eq()], comparators=[copy.deepcopy(n.left)]) for e in elts]
+                    n_sites += 1
+                    new = parts[0] if len(parts) == 1 else ast.BoolOp(op=ast.And() if neg else ast.Or(), values=parts)
+                    return ast.fix_missing_locations(ast.copy_location(new, n))
+            return n
+    for f in list(P.funcs.values()):
+        if f.module.is_tools:
+            continue
+        before = n_sites
+        new = T().visit(f.node)
+        if n_sites != before:
+            f.node = new
+    return n_sites
+
+
+def _pure_test(e):
+    if isinstance(e, (ast.Name, ast.Constant)):
+        return True
+    if isinstance(e, ast.Attribute):
+        return _pure_test(e.value)
+    if isinstance(e, ast.Subscript):
+        return _pure_test(e.value) and (_pure_test(e.slice) if not isinstance(e.slice, ast.Slice) else all(x is None or _pure_test(x) for x in (e.slice.lower, e.slice.upper, e.slice.step)))
+    if isinstance(e, ast.UnaryOp):
+        return _pure_test(e.operand)
+    if isinstance(e, ast.BinOp):
+        return _pure_test(e.left) and _pure_test(e.right)
+    if isinstance(e, ast.BoolOp):
+        return all(_pure_test(v) for v in e.values)
+    if isinstance(e, ast.Compare):
+        return _pure_test(e.left) and all(_pure_test(c) for c in e.comparators)
+    if isinstance(e, ast.Call) and isinstance(e.func, ast.Name) and e.func.id in ("len", "isinstance") and not e.keywords:
+        return all(_pure_test(a) for a in e.args)
+    return False
+
+
+def normalize_ifexp(P):
+    """A conditional expression with an effect-free test inside a simple statement is the if / else statement
+    with the two variants of that statement: `x = f(a if c else b)` is `if c: x = f(a) else: x = f(b)`."""
+    import copy
+    n_sites = [0]
+
+    def find(expr):
+        """first IfExp inside expr that is not under a lambda / comprehension / another IfExp's test"""
+        stack = [expr]
+        while stack:
+            n = stack.pop(0)
+            if isinstance(n, ast.IfExp):
+                return n
+            if isinstance(n, (ast.Lambda, ast.ListComp, ast.SetComp, ast.DictComp, ast.GeneratorExp)):
+                continue
+            stack.extend(ast.iter_child_nodes(n))
+        return None
+
+    def split(stmt, depth=0):
+        if depth > 3 or not isinstance(stmt, (ast.Assign, ast.AugAssign, ast.AnnAssign, ast.Return, ast.Expr)):
+            return [stmt]
+        val = stmt.value
+        if val is None:
+            return [stmt]
+        ife = find(val)
+        if ife is None or not _pure_test(ife.test):
+            return [stmt]
+
+        class Sub(ast.NodeTransformer):
+            def __init__(self, repl):
+                self.repl = repl
+
+            def visit_IfExp(self, n):
+                if n is target[0]:
+                    return self.repl
+                return self.generic_visit(n)
+        out = []
+        for arm in ("body", "orelse"):
+            c = copy.deepcopy(stmt)
+            # locate the copy of the IfExp in the copied statement (same position in a walk)
+            orig_nodes = list(ast.walk(stmt))
+            copy_nodes = list(ast.walk(c))
+            target = [copy_nodes[orig_nodes.index(ife)]]
+            c = Sub(getattr(target[0], arm)).visit(c)
+            out.append(split(c, depth + 1))
+        n_sites[0] += 1
+        new = ast.If(test=copy.deepcopy(ife.test), body=out[0], orelse=out[1])
+        return [ast.fix_missing_locations(ast.copy_location(new, stmt))]
+
+    def rewrite(block):
+        res = []
+        for s_ in block:
+            for fld in ("body", "orelse", "finalbody"):
+                sub = getattr(s_, fld, None)
+                if isinstance(sub, list) and sub and isinstance(sub[0], ast.stmt):
+                    setattr(s_, fld, rewrite(sub))
+            if isinstance(s_, ast.Try):
+                for h in s_.handlers:
+                    h.body = rewrite(h.body)
+            res.extend(split(s_))
+        return res
+
+    for f in list(P.funcs.values()):
+        if f.module.is_tools or f.parent is not None:
+            continue
+        before = n_sites[0]
+        body = rewrite(f.node.body)
+        if n_sites[0] != before:
+            f.node.body = body
+    return n_sites[0]
